@@ -236,8 +236,10 @@ def check(ctx: Ctx) -> None:
                 continue
             c = ss[0]
             item = [p for p in fsend.params() if p != "self"][0]
-            ok = repo.fold_in(c.args[0], fsend) == 4 and unparse(c.args[1]) == "self.id" and isinstance(c.args[2], ast.Call) \
-                and callee_attr(c.args[2]) == "dumps_internal" and unparse(c.args[2].args[0]) == item
+            from ..util import expand
+            a_code, a_id, a_pl = arg(c, 0, "msgcode"), arg(c, 1, "channelid"), expand(repo, fsend, arg(c, 2, "data"))
+            ok = a_code is not None and repo.fold_in(a_code, fsend) == 4 and a_id is not None and unparse(a_id) == "self.id" and isinstance(a_pl, ast.Call) \
+                and callee_attr(a_pl) == "dumps_internal" and unparse(a_pl.args[0]) == item
             if not ok:
                 ob.violation(fsend, c, "Channel.send does not send (CHANNEL_DATA, own id, dumps_internal(item))")
         ob.require(n >= 1, "no normal path through Channel.send")
